@@ -31,7 +31,7 @@ def run(tier, seed):
     for i, err in failed.items():
         name = mods[i]
         if name in ("c04ctl", "c04decl", "c04types"):
-            asm_violations.append((name, "whole module", err, open(os.path.join(wdir, name + ".wat")).read()))
+            asm_violations.append((name, "whole-module", err, open(os.path.join(wdir, name + ".wat")).read()))
             continue
         # the tree's assembler rejects (or crashes on) a valid generated module: find the functions responsible,
         # report each as a violation (a valid module must be assembled), and carry on with the others
